@@ -34,6 +34,7 @@ class Profile:
         self.p_post = 0.0
         self.p_lazy = 0.0
         self.p_self_merge = 0.03
+        self.p_loop_send = 0.3      # sends inside a loop-constructing transaction (before the loop, between definitions, after the close)
         self.p_listen_u = 0.0       # a listener whose callback unlistens an earlier listener
         self.max_sinks = 4
         self.listen_cells = 0.3
@@ -286,6 +287,16 @@ class Gen:
         r = self.r
         self.emit("{")
         self.depth += 1
+        sent = []
+
+        def maybe_send(pr):
+            if r.random() < pr:
+                ss = self.sinks()
+                if ss:
+                    h = r.choice(ss)
+                    self.emit("send %d %d" % (h, r.randint(0, 60)))
+                    sent.append(h)
+        maybe_send(self.p.p_loop_send)
         lh = self.new_h()
         if k == "sloop":
             self.add(lh, "S", "int", [], "sloop %d" % lh, role="sloop")
@@ -293,8 +304,12 @@ class Gen:
             self.add(lh, "C", "int", [], "cloop %d" % lh, role="cloop")
         for _ in range(r.randint(1, 5)):
             self.gen_def()
+            maybe_send(self.p.p_loop_send / 3)
         kind = "S" if k == "sloop" else "C"
         t = self.pick(kind, "int", exclude_dep=lh)
+        direct = [h for h in sent if self.o[h].alive and self.o[h].kind == kind and self.o[h].vt == "int"]
+        if direct and r.random() < 0.5:
+            t = r.choice(direct)    # the loop is closed directly onto a sink that already fired in this transaction
         if t is None:
             # make a legal target
             if k == "sloop":
@@ -308,6 +323,8 @@ class Gen:
                 self.add(t, "C", "int", [], "const %d %d" % (t, r.randint(0, 9)))
         self.o[lh].deps = {t}
         self.emit("%s_close %d %d" % (k, lh, t))
+        maybe_send(self.p.p_loop_send)
+        maybe_send(self.p.p_loop_send / 2)
         self.emit("}")
         self.depth -= 1
         return True
